@@ -291,10 +291,74 @@ sed 's/^/LOG: /' ../log
 """
 
 
+CRASH_SCENARIO = r"""
+set -u
+cc -shared -fPIC -O1 -o ./shim.so "$SHIM_SRC" -ldl || { echo CANNOT-BUILD-SHIM; exit 97; }
+SHIM="$PWD/shim.so"
+mkdir proj && cd proj
+cat > tgt.do <<'DO'
+redo-ifchange src
+@OUTPUT@
+DO
+echo v1 > src
+if [ "@PRIOR@" != never-built ]; then
+    redo-ifchange tgt >/dev/null 2>&1 || { echo FIRST-BUILD-FAILED; exit 97; }
+    [ "$(cat tgt)" = v1 ] || { echo FIRST-BUILD-WRONG; exit 97; }
+    [ "@PRIOR@" = built-then-removed ] && rm -f tgt
+    sleep 0.05
+    echo v2 > src
+fi
+VERIF_CRASH='@CRASH@' LD_PRELOAD="$SHIM" redo-ifchange tgt >../killed.log 2>&1
+echo "killed-rc=$?"
+redo-ifchange tgt >../recovery.log 2>&1
+echo "recovery-rc=$?"
+echo "after-recovery=$(cat tgt 2>/dev/null || echo MISSING)"
+sleep 0.05
+echo v3 > src
+redo-ifchange tgt >../later.log 2>&1
+echo "later-rc=$?"
+echo "final=$(cat tgt 2>/dev/null || echo MISSING)"
+ls | grep -c 'redo.tmp' | sed 's/^/tmpfiles=/'
+sed 's/^/RECOVERY-LOG: /' ../recovery.log | head -5
+"""
+
+CRASH_SPEC = {
+    'after-rename-before-commit': 'after:rename:tgt',
+    'after-unlink-before-commit': 'after:unlink:tgt',
+    'after-copy-before-rename': 'before:rename:tgt',
+    'after-script-creates-$3-before-rename': 'before:rename:tgt',
+}
+
+
 def make_replay(chk, rep, scn):
     def replay(c):
         role = c.get('role', '')
         w = c.get('witness', {})
+        if c.get('kind') == 'crash' and w.get('crash_point') in CRASH_SPEC and w.get('script'):
+            import os
+            sc = w['script']
+            output = 'cat src > $3' if sc['has3'] else ('cat src' if sc['stdout'] else ':')
+            if sc['rv']:
+                output += '\nexit 1'
+            script = (CRASH_SCENARIO.replace('@OUTPUT@', output).replace('@PRIOR@', w['prior_state'])
+                      .replace('@CRASH@', CRASH_SPEC[w['crash_point']]))
+            os.environ['SHIM_SRC'] = os.path.join(os.path.dirname(os.path.dirname(os.path.abspath(__file__))), 'replay', 'crashshim.c')
+            rc, out = scn.run({}, script, timeout=300)
+            c['scenario_output'] = out[-2500:]
+            lines = dict(l.split('=', 1) for l in out.split('\n') if '=' in l and not l.startswith('RECOVERY-LOG'))
+            if rc == 97 or 'killed-rc' not in lines:
+                return False, 'scenario could not be set up: ' + out[-300:]
+            if lines['killed-rc'] != '137':
+                return False, 'the crash injector did not fire (killed-rc=%s)' % lines['killed-rc']
+            want_final = 'v3' if (sc['has3'] or sc['stdout']) else 'MISSING'
+            stale = lines.get('recovery-rc') == '0' and lines.get('later-rc') == '0' and lines.get('final') != want_final
+            kind = role.split(':')[1] if ':' in role else ''
+            if kind in ('treated-as-foreign', 'dirtiness-lost'):
+                return stale, 'real binaries, redo killed %s (%s): recovery exits %s, after a further source edit redo-ifchange exits %s and ' \
+                              'the target is %r (a from-scratch build gives %r)' % (w['crash_point'], CRASH_SPEC[w['crash_point']],
+                                                                                 lines.get('recovery-rc'), lines.get('later-rc'),
+                                                                                 lines.get('final'), want_final)
+            return False, 'no observable for %s' % kind
         if role == 'record_new_state:changed-on-failure' and w.get('faults') == ['create-failed'] and w.get('stdout_bytes'):
             # File::create(tmp) fails although the script succeeded: run the real binaries on a tmpfs whose inodes are used up
             rc, out = scn.run({}, ENOSPC_SCENARIO, timeout=300)
@@ -534,3 +598,205 @@ def as_bool(v):
     if z3.is_bool(v):
         return v
     return v != 0
+
+
+# ------------------------------------------------------------------------------------------------ whole job + crash points (C10)
+SRC_ID = 3
+SRC_NAME = b'src'
+PRESTATES = {
+    # name: (row cells of the target, filesystem state of the target, content tag)
+    'never-built': (dict(is_generated=None, is_override=None, checked_runid=None, changed_runid=None, failed_runid=None, stamp=None,
+                         csum=None), None),
+    'built': (dict(is_generated=True, is_override=False, checked_runid=None, changed_runid=5, failed_runid=None, stamp=tuple(S1),
+                   csum=None), tuple(S1)),
+    'built-then-removed': (dict(is_generated=True, is_override=False, checked_runid=None, changed_runid=5, failed_runid=None,
+                                stamp=tuple(S1), csum=None), None),
+    'failed-last-time': (dict(is_generated=True, is_override=False, checked_runid=None, changed_runid=5, failed_runid=6,
+                              stamp=tuple(S1), csum=None), tuple(S1)),
+}
+
+
+class JobWorldB(BuildWorld):
+    def __init__(self, eng, runid):
+        BuildWorld.__init__(self, eng, runid)
+        self.capture = None
+        self.script_rv = 0
+
+    def tempfile(self, eng, sp):
+        self.capture = Opaque('fs::File', {'kind': 'capture', 'size': 0, 'pos': 0})
+        return ok(self.capture)
+
+    def job_result(self, eng):
+        return self.script_rv
+
+
+def clone_world(eng, w, fs, content, db, runid):
+    """a fresh world with the given filesystem and (committed) database"""
+    n = JobWorldB(eng, runid)
+    n.fs = dict(fs)
+    n.content = dict(content)
+    n.files = {k: dict(v) for k, v in db[0].items()}
+    n.deps = {k: dict(v) for k, v in db[1].items()}
+    n.next_rowid = max([100] + [k + 1 for k in n.files])
+    n.do_firstline = b'echo hi\n'
+    n.new_stamps = [b'11.000000-91-910-33188-0-0', b'12.000000-92-920-33188-0-0']
+    return n
+
+
+def crash_facts(chk, pid):
+    """one whole build job (start_self, the script, the job future with record_new_state and the final commit) x a kill just
+    before every state-changing effect; then the next run's decisions on what the crash left behind"""
+    eng = chk.eng
+    install_job_stubs(eng)
+    R = 10
+    st = {}
+
+    def run():
+        pre = sorted(PRESTATES)[eng.choose(len(PRESTATES), 'prior state')]
+        cells, fs_t = PRESTATES[pre]
+        w = JobWorldB(eng, R)
+        eng.world = w
+        w.add_file(T_ID, T_NAME, **cells)
+        w.fs[tuple(T_NAME)] = fs_t
+        if fs_t is not None:
+            w.content[tuple(T_NAME)] = 'previous'
+        # a source the target depends on; edited since the last build or not
+        src_edited = eng.choose(2, 'source edited') if pre != 'never-built' else 0
+        w.add_file(SRC_ID, SRC_NAME, is_generated=None, is_override=None, checked_runid=None, changed_runid=5, failed_runid=None,
+                   stamp=tuple(S1), csum=None)
+        w.fs[tuple(SRC_NAME)] = tuple(S2) if src_edited else tuple(S1)
+        if pre != 'never-built':
+            w.deps[(T_ID, SRC_ID)] = {'mode': tuple(b'm'), 'delete_me': 0}
+        w.fs[tuple(b'tgt.do')] = tuple(S1)
+        w.do_firstline = b'echo hi\n'
+        w.db_committed = w.snap_db()
+        env = dbmodel.make_env(eng, R, log=0)
+        psr = new_cell(dbmodel.make_process_state(eng, env))
+        st.update(w=w, pre=pre, src_edited=src_edited, script=None, crashes=[])
+        # reference verdict before anything happens
+        snap = depscheck.snapshot(w)
+        ref = depscheck.RefEval(eng, w, snap[0], snap[1], snap[2], R)
+        st['v0'] = ref.verdict(T_ID, R)
+        r = run_start_self(eng, w, psr)
+        if r.var != 'Ok' or not w.jobs:
+            st['started'] = False
+            return r, None
+        st['started'] = True
+        # ---- the script runs (its observable outcome is an input)
+        rv = eng.choose(2, 'script exit status')
+        out = eng.choose(2, 'script wrote stdout')
+        has3 = eng.choose(2, 'script created $3') if not out else 0
+        declares = eng.choose(2, 'script declared its source')
+        st['script'] = dict(rv=rv, stdout=out, has3=has3, declares=declares)
+        if declares:
+            w.effect('script-declares-dep')
+            w.deps[(T_ID, SRC_ID)] = {'mode': tuple(b'm'), 'delete_me': 0}
+            # redo-ifchange in the child also records the source's current stamp
+            w.files[SRC_ID]['stamp'] = w.fs_stamp(tuple(SRC_NAME))
+            if src_edited:
+                w.files[SRC_ID]['changed_runid'] = R
+            w.db_committed = w.snap_db()
+        if out:
+            w.effect('script-writes-stdout')
+            w.capture.data['size'] = 5
+            w.capture.data['pos'] = 5
+        if has3:
+            w.effect('script-creates-$3')
+            w.fs[tuple(TMP_NAME)] = w.fresh_stamp()
+            w.content[tuple(TMP_NAME)] = '$3'
+        w.script_rv = rv
+        cx = new_cell(Struct('Context', [Opaque('Waker', 'noop')]))
+        p = eng.call('<X as Future>::poll', [r.f[0], cx], None, None)
+        w.effect('end')       # pseudo effect: "crash" after everything = no crash
+        return r, p
+
+    def judge(outcome, val, path):
+        w = st['w']
+        pre = st['pre']
+        wit = {'prior_state': pre, 'source_edited': st['src_edited'], 'script': st['script'], 'effects': [k for k, d in w.effects]}
+        if outcome != 'ok':
+            return {'role': 'job:' + outcome, 'kind': 'crash', 'witness': wit, 'what': 'build job: %s %s' % (outcome, getattr(val, 'msg', val))}
+        if not st['started']:
+            return None
+        chk.goal('crash: a job with stdout output runs to the end', bool(st['script']['stdout']) and st['script']['rv'] == 0)
+        chk.goal('crash: a job with $3 output runs to the end', bool(st['script']['has3']) and st['script']['rv'] == 0)
+        chk.goal('crash: a failing job runs to the end', st['script']['rv'] != 0)
+        r, p = val
+        fx = w.effects
+        v0 = st['v0']
+        found = []
+        for k in range(len(fx)):
+            (fs, content), dbc = w.fs_snapshots[k]
+            prev_kind = fx[k - 1][0] if k else 'begin'
+            next_kind = fx[k][0]
+            point = 'after-%s-before-%s' % (prev_kind, next_kind)
+            if dbc is None:
+                continue
+            res = recover(eng, fs, content, dbc, R + 1)
+            eng.world = w
+            tcont = content.get(tuple(T_NAME))
+            tfs = fs.get(tuple(T_NAME))
+            ours = True     # in every prior state of this obligation the target is redo's own (or absent)
+            bad = None
+            if res.get('error'):
+                bad = ('recovery-error', 'the recovery run fails: %s' % res['error'])
+            elif tfs is not None and res['foreign_exit']:
+                bad = ('treated-as-foreign', 'the next run treats the target (content: %s) as a file it must not touch (%s): it is never '
+                       'built again' % (tcont, res['how']))
+            elif next_kind != 'end' and v0 != depscheck.CLEAN and res['verdict'] == depscheck.CLEAN and tcont != 'previous-complete':
+                # dirtiness may only go away through the job's final commit
+                if not (prev_kind == 'commit' and k == len(fx) - 1):
+                    bad = ('dirtiness-lost', 'the target was %s before the job, the job was killed %s, and the next run calls it Clean' % (
+                        depscheck.fmt_verdict(v0), point))
+            elif res['started'] and res['tmp_left']:
+                bad = ('stale-tmp', 'the next run starts the script while the killed run\'s temporary output file still exists')
+            if bad:
+                found.append((point, bad))
+        chk.goal('crash: a kill between rename and commit is examined', any(fx[k - 1][0] == 'rename' and fx[k][0] == 'commit' for k in range(1, len(fx))))
+        if found:
+            point, (what_k, what) = found[0]
+            role = 'crash:%s:%s' % (what_k, point)
+            wit['crash_point'] = point
+            wit['all_points'] = [(pt, b[0]) for pt, b in found]
+            return {'role': role, 'kind': 'crash', 'witness': wit, 'what': 'killed %s (prior state %s): %s' % (point, pre, what)}
+        return None
+
+    def sample(outcome, val, path):
+        w = st['w']
+        return {'prior_state': st['pre'], 'script': st['script'], 'effects': [k for k, d in w.effects]}
+
+    chk.explore('kill before every state-changing effect of a build job, then the next run', run, judge, sample)
+
+
+def recover(eng, fs, content, db, runid):
+    """what the next run decides on the world a kill left behind: the dirtiness verdict of the real is_dirty and whether the real
+    start_self builds the target or walks away from it"""
+    w2 = clone_world(eng, None, fs, content, db, runid)
+    eng.world = w2
+    out = {'error': None, 'foreign_exit': False, 'how': '', 'started': False, 'tmp_left': False, 'verdict': None}
+    try:
+        r, fr, ptxr, psr = depscheck.call_is_dirty(eng, w2, runid, T_ID)
+        if r.var != 'Ok':
+            out['error'] = 'is_dirty: %r' % (r,)
+            return out
+        out['verdict'] = depscheck.real_verdict(eng, r)
+        # the verdict transaction is committed by the caller (redo-ifchange's should_build runs inside the job's transaction)
+        eng.call('ProcessTransaction::commit', [ptxr.get()], None, None)
+        w2.effects.clear()
+        env = dbmodel.make_env(eng, runid, log=0)
+        psr = new_cell(dbmodel.make_process_state(eng, env))
+        r2 = run_start_self(eng, w2, psr)
+        if r2.var != 'Ok':
+            out['error'] = 'start_self: %r' % (r2,)
+            return out
+        out['started'] = bool(w2.jobs)
+        if not w2.jobs:
+            rv = ready_value(eng, r2.f[0])
+            row = w2.files[T_ID]
+            out['foreign_exit'] = True
+            out['how'] = 'is_generated=%r is_override=%r, job result %r' % (row['is_generated'], row['is_override'], rv)
+        else:
+            out['tmp_left'] = w2.fs_stamp(tuple(TMP_NAME)) is not None
+    except Panic as e:
+        out['error'] = 'panic: %s' % e.msg
+    return out
